@@ -5,7 +5,6 @@ NOT_APPLICABLE = {
     "C17": "equality of a computed Merkle root with an independent commitment is value-level; a self-consistent change of hashing leaves every structural rule intact",
     "C18": "reachability of stored tree nodes from the current root over all histories is a property of runtime data, not of code shape",
     "C23": "soundness relates the comparison verdict to validity of all payloads under two schemas; semantic, no structural necessary condition",
-    "C27": "parse/print inverse is a round-trip equality over all strings/values; value-level",
     "C38": "soundness of analyser output against all executions on all ledger states is semantic",
     "C42": "proportionality and per-epoch emission bounds are arithmetic over histories; the stake-sorted index is value-level",
     "C46": "semantic equivalence of two WASM programs (before/after instrumentation)",
@@ -274,3 +273,9 @@ claim("C26", "audited panic surface of the power/root functions + dominance of t
       "checked_nth_root (both decimal types), including big-integer operator arithmetic, matches an audited entry with its range argument; the "
       "`n - 1` subtraction and nth_root(n) are unreachable from the n == 0 arm and an is_negative() test exists. Exact truncation of the results "
       "is numerical and not decided.", level="other")
+
+claim("C27", "guard dominance: the sign-accepting integer parser reaches the fractional component only behind a digits-only test; rejection liveness",
+      "Decides the acceptance-set clause that is visible in the code's shape: in both decimal parsers the fractional component is parsed by the "
+      "sign-accepting big-integer parser only behind an ASCII-digits-only test (a genuine defect - \"1.-5\" parsed as 0.95 - was found on the pinned "
+      "tree and repaired by a fix: commit); the parse rejections are live and the scale derives from the fractional length. Print/parse round-trip "
+      "equality and exactness of the parsed value are value-level and not decided.")
